@@ -91,8 +91,8 @@ def step (_ : Unit) (line : String) : Unit × String :=
   | ["dms", t] =>
     match unhexBytes t with
     | some x =>
-      match Input.parseDms (bytesToString x) with
-      | some (neg, d, m, s) => ((), s!"ok 1 {showFloat (Input.deg2gonValue neg d m (Input.decToK s : Float))}")
+      match (Angles.deg2gon (bytesToString x) : Option Float) with
+      | some g => ((), s!"ok 1 {showFloat g}")
       | none => ((), "ok 0")
     | none => ((), "bad-op")
   | ["ang", _, v, sd] =>
